@@ -119,6 +119,9 @@ func c19RunTCP(sc c19Scenario) c19ChildOut {
 	if sc.Mode == "tcp-late-accept" {
 		return c19RunTCPLateAccept(sc)
 	}
+	if sc.Mode == "tcp-two-servers" {
+		return c19RunTCPTwoServers(sc)
+	}
 	total := sc.Subs * sc.Jobs
 	lg := &c19Log{ev: make([]int64, 4*total+64)}
 	rng := rand.New(rand.NewSource(sc.Seed))
@@ -575,5 +578,194 @@ func c19RunTCPLateAccept(sc c19Scenario) c19ChildOut {
 		out.Note = fmt.Sprint(phase.Load())
 	}
 	out.Fails = append(out.Fails, c19Monitor(sc, out.Trace, false, out.HighWater)...)
+	return out
+}
+
+// c19RunTCPTwoServers: two pooled TCP servers in ONE process with different MaxInvoke (W and W2). Each has its own pool:
+// under a burst against a gated Invoke each server has exactly its own MaxInvoke handlers inside Invoke; after the first
+// server has been shut down (its pool released) the second one still executes every request exactly once, and its own
+// shutdown returns. One trace for both (job numbers are disjoint); release events are not part of it (there are two pools).
+func c19RunTCPTwoServers(sc c19Scenario) c19ChildOut {
+	var out c19ChildOut
+	var mu sync.Mutex
+	fail := func(sig, desc string) {
+		mu.Lock()
+		out.Fails = append(out.Fails, Failure{Sig: sig, Desc: desc})
+		mu.Unlock()
+	}
+	ws := [2]int{sc.W, sc.W2}
+	if ws[1] < 1 {
+		ws[1] = 1
+	}
+	burst := [2]int{ws[0] + 1 + sc.Q + 3, ws[1] + 1 + sc.Q + 3}
+	const after = 4 // requests to the second server after the first one is gone
+	total := burst[0] + burst[1] + after
+	lg := &c19Log{ev: make([]int64, 4*total+64)}
+	var ps [2]*c19Proto
+	for i := range ps {
+		ps[i] = &c19Proto{lg: lg, gate: make(chan struct{}), gated: true, durOf: make([]int, total+1), count: make([]int32, total+1)}
+		for k := range ps[i].durOf {
+			ps[i].durOf[k] = sc.Dur % 3
+		}
+	}
+	var phase atomic.Value
+	phase.Store("listen")
+	done := make(chan struct{})
+	go func() {
+		defer close(done)
+		var once [2]sync.Once
+		open := func(i int) { once[i].Do(func() { close(ps[i].gate) }) }
+		defer open(0)
+		defer open(1)
+		var tss [2]*transport.TarsServer
+		var addrs [2]string
+		var served [2]chan struct{}
+		for i := 0; i < 2; i++ {
+			for try := 0; ; try++ {
+				l, err := net.Listen("tcp", "127.0.0.1:0")
+				if err != nil {
+					out.Note = "skipped: no loopback listener: " + err.Error()
+					return
+				}
+				addrs[i] = l.Addr().String()
+				l.Close()
+				tss[i] = transport.NewTarsServer(ps[i], &transport.TarsServerConf{Proto: "tcp", Address: addrs[i], MaxInvoke: int32(ws[i]), QueueCap: sc.Q,
+					AcceptTimeout: 50 * time.Millisecond, ReadTimeout: 100 * time.Millisecond, IdleTimeout: time.Hour})
+				if err := tss[i].Listen(); err == nil {
+					break
+				} else if try >= 5 {
+					out.Note = "skipped: cannot listen: " + err.Error()
+					return
+				}
+			}
+			served[i] = make(chan struct{})
+			go func(i int) { tss[i].Serve(); close(served[i]) }(i)
+		}
+		wait := func(cond func() bool) bool {
+			t0 := time.Now()
+			for !cond() {
+				if time.Since(t0) > c19Slack {
+					return false
+				}
+				time.Sleep(200 * time.Microsecond)
+			}
+			return true
+		}
+		var conns [2]net.Conn
+		send := func(i, from, n int) bool {
+			for k := 0; k < n; k++ {
+				id := from + k
+				pkt := make([]byte, 12)
+				binary.BigEndian.PutUint32(pkt[0:4], 12)
+				binary.BigEndian.PutUint32(pkt[4:8], uint32(id))
+				lg.add(c19KSubCall, id)
+				conns[i].SetWriteDeadline(time.Now().Add(c19Slack))
+				if _, err := conns[i].Write(pkt); err != nil {
+					fail("C19/hang/tcp-write", "writing a request failed: "+err.Error())
+					return false
+				}
+			}
+			return true
+		}
+		phase.Store("saturate")
+		for i := 0; i < 2; i++ {
+			c, err := net.DialTimeout("tcp", addrs[i], c19Slack)
+			if err != nil {
+				fail("C19/hang/tcp-dial", "cannot connect to a server: "+err.Error())
+				return
+			}
+			defer c.Close()
+			go io.Copy(io.Discard, c)
+			conns[i] = c
+		}
+		if !send(0, 1, burst[0]) || !send(1, burst[0]+1, burst[1]) {
+			return
+		}
+		for i := 0; i < 2; i++ {
+			i := i
+			if !wait(func() bool { return atomic.LoadInt32(&ps[i].running) >= int32(ws[i]) }) {
+				fail("C19/hang/saturate", fmt.Sprintf("two pooled servers in one process: only %d handlers of server %d (MaxInvoke=%d, the other server has %d) are inside Invoke within %v under a burst of %d requests", atomic.LoadInt32(&ps[i].running), i+1, ws[i], ws[1-i], c19Slack, burst[i]))
+				return
+			}
+		}
+		time.Sleep(30 * time.Millisecond)
+		for i := 0; i < 2; i++ {
+			if r := atomic.LoadInt32(&ps[i].running); r > int32(ws[i]) {
+				fail("C19/parallelism-exceeded", fmt.Sprintf("two pooled servers in one process: %d handlers of server %d are inside Invoke at the same time, its MaxInvoke is %d (the other server's is %d)", r, i+1, ws[i], ws[1-i]))
+			}
+		}
+		open(0)
+		open(1)
+		phase.Store("jobs")
+		if !wait(func() bool {
+			return atomic.LoadInt32(&ps[0].ended) >= int32(burst[0]) && atomic.LoadInt32(&ps[1].ended) >= int32(burst[1])
+		}) {
+			out.Complete = true
+			fail("C19/hang/all-jobs-finished", fmt.Sprintf("only %d+%d of %d+%d requests were handled within %v", atomic.LoadInt32(&ps[0].ended), atomic.LoadInt32(&ps[1].ended), burst[0], burst[1], c19Slack))
+			return
+		}
+		// the first server goes away
+		phase.Store("shutdown-1")
+		ctx, cancel := context.WithTimeout(context.Background(), 20*time.Millisecond)
+		tss[0].Shutdown(ctx)
+		cancel()
+		select {
+		case <-served[0]:
+		case <-time.After(c19Slack):
+			fail("C19/hang/release-return-on-idle-pool", fmt.Sprintf("Serve of the first server did not return within %v after Shutdown", c19Slack))
+			return
+		}
+		// the second one goes on
+		phase.Store("second-goes-on")
+		out.Complete = true
+		if !send(1, burst[0]+burst[1]+1, after) {
+			return
+		}
+		if !wait(func() bool { return atomic.LoadInt32(&ps[1].ended) >= int32(burst[1]+after) }) {
+			fail("C19/hang/all-jobs-finished", fmt.Sprintf("two pooled servers in one process: after the first server was shut down only %d of %d requests sent to the second one were executed within %v (MaxInvoke %d and %d, QueueCap %d) — its pool does not run them", atomic.LoadInt32(&ps[1].ended)-int32(burst[1]), after, c19Slack, ws[0], ws[1], sc.Q))
+			return
+		}
+		phase.Store("shutdown-2")
+		ctx2, cancel2 := context.WithTimeout(context.Background(), 20*time.Millisecond)
+		tss[1].Shutdown(ctx2)
+		cancel2()
+		select {
+		case <-served[1]:
+		case <-time.After(c19Slack):
+			fail("C19/hang/release-return-on-idle-pool", fmt.Sprintf("Serve of the second server did not return within %v after Shutdown (its Release does not return)", c19Slack))
+			return
+		}
+		phase.Store("workers-stopped")
+		if !wait(func() bool { return c19PoolGoroutines() == 0 }) {
+			fail("C19/hang/worker-not-stopped", fmt.Sprintf("%d goroutine(s) of a pool still exist %v after both servers released theirs", c19PoolGoroutines(), c19Slack))
+		}
+		time.Sleep(3 * time.Millisecond)
+	}()
+	select {
+	case <-done:
+	case <-time.After(8 * c19Slack):
+		fail("C19/hang/scenario", fmt.Sprintf("scenario stuck in phase %v", phase.Load()))
+	}
+	out.Trace = lg.snapshot()
+	out.HighWater = int(atomic.LoadInt32(&ps[0].high) + atomic.LoadInt32(&ps[1].high))
+	for i := 0; i < 2; i++ {
+		if h := int(atomic.LoadInt32(&ps[i].high)); h > ws[i] {
+			fail("C19/parallelism-exceeded", fmt.Sprintf("two pooled servers in one process: server %d had %d handlers inside Invoke at the same time, its MaxInvoke is %d", i+1, h, ws[i]))
+		}
+	}
+	if out.Note == "" {
+		out.Note = fmt.Sprint(phase.Load())
+	}
+	both := sc
+	both.W = ws[0] + ws[1]
+	out.Fails = append(out.Fails, c19Monitor(both, out.Trace, out.Complete, out.HighWater)...)
+	if out.Complete && fmt.Sprint(phase.Load()) == "workers-stopped" {
+		for id := 1; id <= total; id++ {
+			if n := atomic.LoadInt32(&ps[0].count[id]) + atomic.LoadInt32(&ps[1].count[id]); n != 1 {
+				fail("C19/job-not-run-exactly-once", fmt.Sprintf("request %d was handled %d times (two servers, MaxInvoke %d and %d)", id, n, ws[0], ws[1]))
+				break
+			}
+		}
+	}
 	return out
 }
